@@ -74,7 +74,9 @@ func GenLink(r *core.Rand) pipe.Plan {
 	return l
 }
 
-var motds = []string{"Welcome to the simulated RMS", "Hello there", "*** MTD Stats Total connects = 2580 Total messages = 3900", "Line with trailing spaces  ", "73 de sim"}
+var motds = []string{"Welcome to the simulated RMS", "Hello there", "*** MTD Stats Total connects = 2580 Total messages = 3900", "Line with trailing spaces  ", "73 de sim",
+	// text that looks like part of a SID without being one (a SID line starts with [ and ends with ])
+	"Sysop is [LA1B-10], 73!", "[News-1] bulletins for [ALL] on 2026-09-26", "See [FBB-7.00-AB1B2FHMX$] for details"}
 
 // GenStations draws two stations with message sets and mutual answer policies.
 // maxMsgs bounds the number of messages each way, size scales body/attachment sizes.
